@@ -63,9 +63,11 @@ def main():
                 killed = any(l.startswith("VIOLATION") for l in p.stdout.splitlines())
                 result[(c, seed)] = killed
                 print("%s seed=%s rc=%d %s" % (c, seed, p.returncode, "KILLED" if killed else "survived"))
+                shown = 0
                 for l in p.stdout.splitlines():
-                    if l.startswith(("VIOLATION", "  Fail", "TOOL", "BUILD")):
+                    if l.startswith(("TOOL", "BUILD")) or (l.startswith(("VIOLATION", "  Fail")) and shown < 2):
                         print("   " + l[:400])
+                        shown += 1
         return 0 if all(result.values()) else 1
     finally:
         shutil.rmtree(work, ignore_errors=True)
